@@ -40,6 +40,7 @@ def fmt_case(f, ops):
     return " ".join(["fmt", hx(f)] + ops)
 
 VALS = ["", "x", "{}", "{", "}"]
+VALS2 = VALS + ["a{", "}a", "{}{}", "}{"]
 INTS = [0, 1, -1, 7, 10, -10, 42, 99, 100, 999999, -999999, 123456, 2147483647, -2147483648, 2**31, 2**53 + 1,
         4611686018427387903, -4611686018427387904, 9223372036854775807, -9223372036854775808]
 DBLS = [0, 1, -1, 5, 10, -10, 100, 1000, 4096, 99999, 100000, 123456, 999999, -999999, -123450]
@@ -84,7 +85,8 @@ class C08(Check):
                   "is exercised (not wchar_t/char16_t/char32_t or the _nf literal); what() is compared for NUL-free messages only")
     rule = ("exhaustive: every format string over {'{','}','a'} up to a length bound (6 quick, 8 thorough) x every argument count "
             "0..k+1 (k = number of placeholders) x every argument tuple over {\"\", x, {}, {, }} x two call styles (a chain of %, one "
-            "args(...) call) plus a random %/args(...)/args() mixture for tuples of >= 2 arguments; structured: random longer formats "
+            "args(...) call) plus a random %/args(...)/args() mixture for tuples of >= 2 arguments, and for the exact argument count "
+            "also every tuple over the wider alphabet adding a{, }a, {}{}, }{; structured: random longer formats "
             "built from pieces and placeholders with string / long / integer-valued double arguments and arity off by -2..+2; "
             "malformed: random bytes (NUL, high bytes, brace runs); exception messages with 1..8 arguments of the three kinds. "
             "A case is non-trivial when the format has at least one placeholder and at least one argument is supplied, or (exception "
@@ -106,6 +108,16 @@ class C08(Check):
                     yield fmt_case(f, chain_args(args)), "fmt-exh-args"
                     if n >= 2 and (tier == "thorough" or rng.random() < 0.5):
                         yield fmt_case(f, chain_mixed(args, rng)), "fmt-exh-mixed"
+        # exact arity with a wider argument alphabet (every placeholder gets a value that could disturb a rescanning formatter)
+        for f in strings("{}a", L):
+            k = f.count("{}")
+            if k == 0:
+                continue
+            for t in itertools.product(VALS2, repeat=k):
+                if all(x in VALS for x in t):
+                    continue
+                args = [S(x) for x in t]
+                yield fmt_case(f, chain_pct(args) if rng.random() < 0.5 else chain_args(args)), "fmt-exh-exact"
         # (ii) structured: pieces + placeholders, typed arguments, arity around the right one
         R = 3000 if tier == "quick" else 60000
         lits = ["", "a", "{", "}", "}{", "{{", "}}", "{a}", "{ }", " ", "abc", "%", "{0}", "\\{\\}", "$&", "\n", "{\n}"]
